@@ -419,9 +419,18 @@ func main() {
 				tag = "value-differs"
 				if g.Stored.Kind != c.Exp.Kind && g.Stored.Kind != "none" && c.Exp.Kind != "none" {
 					tag = "value-kind-" + g.Stored.Kind
+				} else if c.Exp.Kind == "num" && g.Stored.S == "-"+c.Exp.S && strings.Trim(c.Exp.S, "0.") == "" {
+					tag = "value-negzero" // the expected text with a minus sign in front (expected is a zero)
 				}
 			}
-			sig := fmt.Sprintf("C27|%s|%s|%s|exp=%s|got=%s|%s", c.TK, c.Mode, c.Val.K, c.Exp.O, g.O, tag)
+			vk := c.Val.K
+			for _, cp := range c.Val.Cps {
+				if cp > 127 {
+					vk = "str+mb" // the input has a multi-byte character
+					break
+				}
+			}
+			sig := fmt.Sprintf("C27|%s|%s|%s|%s|exp=%s|got=%s|%s", c.TK, strings.ReplaceAll(c.DDL, " ", "_"), c.Mode, vk, c.Exp.O, g.O, tag)
 			rep.Mismatches = append(rep.Mismatches, vio.Mismatch{Case: i, Signature: sig, Expected: c.Exp, Got: g, Input: c})
 		}
 		if len(rep.Samples) < 4 && i%173 == 5 {
